@@ -55,6 +55,13 @@ static int n_rchunks = 0;
 static long rchunks[MAXLIST];
 static int n_wplan = 0;
 static long wplan[MAXLIST];
+/* simulated time: the producer pauses rdelays_ms[k] before the k-th read(0) is answered;
+ * both the monotonic and the wall clock advance by exactly the sum of the pauses so far */
+static int n_rdelays = 0;
+static long rdelays[MAXLIST];
+static int64_t sim_elapsed_ns = 0;
+static int64_t clock_ticks = 0;
+static int own_monotonic = 0;
 static long wfail_at = -1;
 static int wfail_errno = EPIPE;
 static int wfail_sticky = 1;
@@ -180,6 +187,8 @@ __attribute__((constructor)) static void shim_init(void) {
         else if (!strcmp(line, "clock")) plan_clock = strtoll(val, NULL, 10);
         else if (!strcmp(line, "rchunks")) parse_list(val, rchunks, &n_rchunks);
         else if (!strcmp(line, "wplan")) parse_list(val, wplan, &n_wplan);
+        else if (!strcmp(line, "rdelays_ms")) { parse_list(val, rdelays, &n_rdelays); own_monotonic = 1; }
+        else if (!strcmp(line, "own_monotonic")) own_monotonic = atoi(val);
         else if (!strcmp(line, "wfail_at")) wfail_at = strtol(val, NULL, 10);
         else if (!strcmp(line, "wfail_errno")) wfail_errno = atoi(val);
         else if (!strcmp(line, "wfail_sticky")) wfail_sticky = atoi(val);
@@ -346,6 +355,13 @@ ssize_t read(int fd, void *buf, size_t count) {
         return r;
     }
     long call = r_calls++;
+    if (n_rdelays > 0) {
+        long d = rdelays[call % n_rdelays];
+        if (d > 0) {
+            __atomic_add_fetch(&sim_elapsed_ns, (int64_t)d * 1000000LL, __ATOMIC_SEQ_CST);
+            logf_("CLOCK advance_ms=%ld call=%ld", d, call);
+        }
+    }
     maybe_sigint('r', call);
     long heap = -1;
     if (want_heap) {
@@ -475,8 +491,17 @@ ssize_t getrandom(void *buf, size_t buflen, unsigned int flags) {
 int clock_gettime(clockid_t clk, struct timespec *ts) {
     if (!real_clock_gettime) real_clock_gettime = dlsym(RTLD_NEXT, "clock_gettime");
     if (active && (clk == CLOCK_REALTIME || clk == CLOCK_REALTIME_COARSE)) {
-        ts->tv_sec = plan_clock;
-        ts->tv_nsec = 0;
+        int64_t e = __atomic_load_n(&sim_elapsed_ns, __ATOMIC_SEQ_CST);
+        ts->tv_sec = plan_clock + e / 1000000000LL;
+        ts->tv_nsec = e % 1000000000LL;
+        return 0;
+    }
+    if (active && own_monotonic && (clk == CLOCK_MONOTONIC || clk == CLOCK_MONOTONIC_COARSE || clk == CLOCK_MONOTONIC_RAW || clk == CLOCK_BOOTTIME)) {
+        /* discrete-event time: advances only when the simulator says so (plus 1 us per reading,
+         * so that a polling loop cannot spin forever) */
+        int64_t t = 1000LL * 1000000000LL + __atomic_load_n(&sim_elapsed_ns, __ATOMIC_SEQ_CST) + 1000LL * __atomic_add_fetch(&clock_ticks, 1, __ATOMIC_SEQ_CST);
+        ts->tv_sec = t / 1000000000LL;
+        ts->tv_nsec = t % 1000000000LL;
         return 0;
     }
     return real_clock_gettime(clk, ts);
@@ -486,8 +511,9 @@ int gettimeofday(struct timeval *tv, void *tz) {
     (void)tz;
     if (active) {
         if (tv) {
-            tv->tv_sec = plan_clock;
-            tv->tv_usec = 0;
+            int64_t e = __atomic_load_n(&sim_elapsed_ns, __ATOMIC_SEQ_CST);
+            tv->tv_sec = plan_clock + e / 1000000000LL;
+            tv->tv_usec = (e % 1000000000LL) / 1000;
         }
         return 0;
     }
@@ -504,7 +530,7 @@ int gettimeofday(struct timeval *tv, void *tz) {
 time_t time(time_t *t) {
     time_t v;
     if (active)
-        v = (time_t)plan_clock;
+        v = (time_t)(plan_clock + __atomic_load_n(&sim_elapsed_ns, __ATOMIC_SEQ_CST) / 1000000000LL);
     else {
         struct timespec ts;
         if (!real_clock_gettime) real_clock_gettime = dlsym(RTLD_NEXT, "clock_gettime");
